@@ -18,6 +18,7 @@
 #include <string>
 #include <vector>
 
+#include "impl.h"
 #include "manifold/cross_section.h"
 #include "manifold/manifold.h"
 #include "manifold/polygon.h"
@@ -178,6 +179,51 @@ static void meshCase(const std::string& id, Cursor& c) {
   puts(os.str().c_str());
 }
 
+// Number of faces halfedge_ holds when SortGeometry gathers the tangents: the ingest
+// constructor's steps up to CleanupTopology() replayed on the positions only (no
+// tangents, no properties), so that the model's oracle `nFaceSort` is the value the
+// implementation has.  -1 when the record does not get that far.
+template <typename P, typename I>
+static long facesAtSort(const MeshGLP<P, I>& mesh) {
+  if (mesh.numProp < 3) return -1;
+  const size_t nv = mesh.NumVert(), nt = mesh.NumTri();
+  if (nv < 4 || nt < 4 || mesh.mergeFromVert.size() != mesh.mergeToVert.size()) return -1;
+  for (auto x : mesh.vertProperties) if (!std::isfinite(x)) return -1;
+  std::vector<uint32_t> p2v(nv);
+  for (size_t i = 0; i < nv; ++i) p2v[i] = i;
+  for (size_t i = 0; i < mesh.mergeFromVert.size(); ++i) {
+    const uint32_t from = mesh.mergeFromVert[i], to = mesh.mergeToVert[i];
+    if (from >= (uint32_t)nv || to >= (uint32_t)nv) return -1;
+    p2v[from] = to;
+  }
+  Manifold::Impl impl;
+  impl.vertPos_.resize(nv);
+  for (size_t i = 0; i < nv; ++i)
+    for (int k : {0, 1, 2}) impl.vertPos_[i][k] = mesh.vertProperties[mesh.numProp * i + k];
+  Vec<ivec3> triVert;
+  for (size_t t = 0; t < nt; ++t) {
+    ivec3 tv;
+    for (int k : {0, 1, 2}) {
+      const uint32_t v = (uint32_t)mesh.triVerts[3 * t + k];
+      if (v >= (uint32_t)nv) return -1;
+      tv[k] = p2v[v];
+    }
+    if (tv[0] != tv[1] && tv[1] != tv[2] && tv[2] != tv[0]) triVert.push_back(tv);
+  }
+  impl.CreateHalfedges(triVert);
+  if (!impl.IsManifold()) return -1;
+  impl.CalculateBBox();
+  impl.SetEpsilon(-1, std::is_same<P, float>::value);
+  impl.CleanupTopology();
+  return (long)(impl.halfedge_.size() / 3);
+}
+
+template <typename P, typename I>
+static void facesCase(const std::string& id, Cursor& c) {
+  auto mesh = readMesh<P, I>(c);
+  printf("F %s %ld %zu\n", id.c_str(), facesAtSort(mesh), (size_t)mesh.NumTri());
+}
+
 // MeshGL::Merge() on an arbitrary record (exploration).
 template <typename P, typename I>
 static void mergeCase(const std::string& id, Cursor& c) {
@@ -302,6 +348,9 @@ int main() {
     } else if (kind == "R") {
       int prec = (int)c.u();
       if (prec == 32) meshCase<float, uint32_t>(id, c); else meshCase<double, uint64_t>(id, c);
+    } else if (kind == "F") {
+      int prec = (int)c.u();
+      if (prec == 32) facesCase<float, uint32_t>(id, c); else facesCase<double, uint64_t>(id, c);
     } else if (kind == "G") {
       int prec = (int)c.u();
       if (prec == 32) mergeCase<float, uint32_t>(id, c); else mergeCase<double, uint64_t>(id, c);
